@@ -13,6 +13,7 @@ import (
 	"github.com/go-logr/logr"
 	"github.com/jellydator/ttlcache/v3"
 	"go.minekube.com/gate/pkg/edition/java/lite/config"
+	"go.minekube.com/gate/pkg/internal/verifhook"
 	"go.minekube.com/gate/pkg/util/netutil"
 )
 
@@ -102,10 +103,12 @@ func (sm *StrategyManager) TrackConnection(routeHost, backend string) func() {
 	sm.activeConnectionsMu.Lock()
 	sm.activeConnections[key]++
 	sm.activeConnectionsMu.Unlock()
+	verifhook.Point("lb.track.mid", "key", key)
 
 	decrementStrategyCounter := sm.IncrementConnection(backend)
 	return func() {
 		decrementStrategyCounter()
+		verifhook.Point("lb.untrack.mid", "key", key)
 
 		sm.activeConnectionsMu.Lock()
 		if count := sm.activeConnections[key]; count <= 1 {
